@@ -295,6 +295,8 @@ package goat
 
 //@ func goat.(*Demux).Run
 //@   nopanic[C18.nopanic]
+//@   ctxaware[C18.stop_ends_the_hand_off] gsd.ctx
+//@   escape[C18.cancelled_key_does_not_stall_the_run_loop] conn.done
 //@   loop 0 invariant[C18.each_envelope_handed_over_once_in_order] bound("conn") ==> ncalls("send") == iterstart(0, ncalls("send")) + 1 || closed(conn.done)
 //@   loop 0 invariant[C18.each_envelope_handed_over_once_in_order] ncalls("send") <= iterstart(0, ncalls("send")) + 1
 //@   loop 0 invariant[C18.each_envelope_handed_over_once_in_order] ncalls("go:goat.(*Demux).Run$1") == loopentry(0, ncalls("go:goat.(*Demux).Run$1"))
@@ -324,6 +326,7 @@ package goat
 
 //@ func goat.newGoatOverChannel$1
 //@   nopanic[C18.nopanic C19.nopanic]
+//@   escape[C18.cancelled_connection_read_fails] done
 //@   ctxaware[C19.read_returns_on_ctx] ctx
 //@   requires ctx != nil
 //@   ensures[C18.read_result_wellformed C19.read_result_wellformed] result.1 != nil ==> result.0 == nil
@@ -332,6 +335,7 @@ package goat
 
 //@ func goat.newGoatOverChannel$2
 //@   nopanic[C18.nopanic C19.nopanic]
+//@   escape[C18.cancelled_connection_write_fails] done
 //@   captures isclass(outQ, "none") && neverclosed(outQ)
 //@   ctxaware[C19.write_returns_on_ctx] ctx
 //@   requires ctx != nil
